@@ -19,16 +19,17 @@ RULE = (
     "(zero, ties, stragglers) x compute_arrays_in_parallel x batch_size x use_backups x retries are run by the real async_map_dag on a "
     "virtual-time event loop with a scripted pool, and by the real single-threaded executor; oracle on the causal event sequence: "
     "every submission of a task of an operation follows the successful completion of every task of every ancestor operation, "
-    "array creation precedes everything, every task runs. Tier B (end to end): generated programs on the single-threaded and threads "
-    "executors (max_workers 1-4, compute_arrays_in_parallel, batch_size) over a tracing store that delays every chunk write by a "
-    "key-dependent 0-25 ms; oracle: no chunk read of an array produced by the computation misses (no silent fill-value read), each "
+    "array creation precedes everything, every task runs. Tier B (end to end): generated programs on the single-threaded, threads "
+    "and processes executors (max_workers 1-4, compute_arrays_in_parallel, batch_size) over a tracing store that delays every chunk write "
+    "by a key-dependent 0-25 ms (processes: the worker processes append to per-pid trace files with system-wide monotonic timestamps, a "
+    "read stamped before it is issued, a write after it returned); oracle: no chunk read of an array produced by the computation misses (no silent fill-value read), each "
     "hit read follows the completed write of that key in the trace, array metadata is written before any chunk access, and the values "
     "equal NumPy's. Non-trivial: tier A - some operation has >= 2 live producers or operations have unequal task counts; tier B - the "
     "plan has >= 2 dependent operations with >= 2 tasks. distinct = canonical JSON."
 )
 ASSUMPTIONS = [
     "tier A owns every completion time, so each duration assignment is one interleaving of the real scheduler; storage latency is modelled as task duration there",
-    "tier B samples OS-level interleavings only through injected write latency; the processes executor shares async_map_dag with the threads executor and is exercised for values only",
+    "tier B samples OS-level interleavings only through injected write latency; on the processes executor events of different processes are ordered by CLOCK_MONOTONIC (system-wide on Linux)",
 ]
 
 
@@ -85,21 +86,57 @@ def sequential_on_dag(case):
 
 
 # ------------------------------------------------------------------------------------------------ tier B
-def program_cases(opts=None, max_ops=4):
+def program_cases(opts=None, max_ops=4, executors=("threads", "threads", "threads", "single-threaded")):
     from hypothesis import strategies as st
 
     @st.composite
     def cases(draw):
         prog = draw(P.programs(draw(st.sampled_from(["dag", "fusion-rich", "storage-rich"])), max_ops=max_ops, min_ops=2, opts=opts))
-        e = draw(st.sampled_from(["threads", "threads", "threads", "single-threaded"]))
+        e = draw(st.sampled_from(list(executors)))
         case = {"kind": "program", "prog": prog, "executor": e, "optimize": draw(st.sampled_from([False, False, True])), "lat_seed": draw(st.integers(0, 999))}
-        if e == "threads":
+        if e in ("threads", "processes"):
             case["max_workers"] = draw(st.sampled_from([1, 2, 4, 4]))
             case["parallel"] = draw(st.booleans())
             case["batch_size"] = draw(st.sampled_from([None, None, 1, 2, 100]))
         return case
 
     return cases()
+
+
+def analyse_trace(log, fails):
+    """log: [(order, op, key, info, who)] with `order` a sequence number or a system-wide monotonic timestamp.  Appends the
+    failures of the read-after-completed-write oracle to `fails`; -> (misses, early reads)."""
+    from vp import harness as H
+
+    set_done = {}
+    meta_done = {}
+    for (seq, op, key, info, who) in log:
+        path, what = H.split_key(key)
+        if op == "set":
+            if what == "meta":
+                meta_done.setdefault(path, seq)
+            elif what != "other":
+                set_done.setdefault(key, seq)
+    miss = early = 0
+    for (seq, op, key, info, who) in log:
+        if op != "get":
+            continue
+        path, what = H.split_key(key)
+        if what in ("meta", "other"):
+            continue
+        if path not in meta_done or meta_done[path] > seq:
+            if not fails or all(f.bucket != "chunk-access-before-array-created" for f in fails):
+                fails.append(Failure("chunk-access-before-array-created", f"{key} read at #{seq} before the array's metadata was written"))
+        if not info:
+            miss += 1
+            if all(f.bucket != "premature-read:fill-value" for f in fails):
+                w = set_done.get(key)
+                fails.append(Failure("premature-read:fill-value", f"{key} was read at #{seq} (miss) by {who}; " + (f"its write completed at #{w}" if w is not None else "it was never written")))
+        elif key in set_done and set_done[key] > seq:
+            early += 1
+            if all(f.bucket != "read-before-write-completed" for f in fails):
+                fails.append(Failure("read-before-write-completed", f"{key} read at #{seq}, write completed at #{set_done[key]}"))
+    return miss, early
 
 
 def check_program(case) -> Outcome:
@@ -168,37 +205,7 @@ def check_program(case) -> Outcome:
         finally:
             ts.state.latency = None
     # ---- trace analysis
-    set_done = {}
-    meta_done = {}
-    produced = set()
-    for (seq, op, key, task, info, t) in ts.state.log:
-        path, what = H.split_key(key)
-        if op == "set":
-            if what == "meta":
-                meta_done.setdefault(path, seq)
-            elif what != "other":
-                set_done.setdefault(key, seq)
-                produced.add(path)
-    miss = early = nometa = 0
-    for (seq, op, key, task, info, t) in ts.state.log:
-        if op != "get":
-            continue
-        path, what = H.split_key(key)
-        if what in ("meta", "other"):
-            continue
-        if path not in meta_done or meta_done[path] > seq:
-            nometa += 1
-            if not fails or all(f.bucket != "chunk-access-before-array-created" for f in fails):
-                fails.append(Failure("chunk-access-before-array-created", f"{key} read at #{seq} before the array's metadata was written"))
-        if not info:
-            miss += 1
-            if all(f.bucket != "premature-read:fill-value" for f in fails):
-                w = set_done.get(key)
-                fails.append(Failure("premature-read:fill-value", f"{key} was read at #{seq} (miss) by {task}; " + (f"its write completed at #{w}" if w is not None else "it was never written")))
-        elif key in set_done and set_done[key] > seq:
-            early += 1
-            if all(f.bucket != "read-before-write-completed" for f in fails):
-                fails.append(Failure("read-before-write-completed", f"{key} read at #{seq}, write completed at #{set_done[key]}"))
+    miss, early = analyse_trace([(seq, op, key, info, task) for (seq, op, key, task, info, t) in ts.state.log], fails)
     for oid, got in zip(prog["outputs"], res):
         if P.compare(np.asarray(got), vals[oid]) is not None:
             labels.add("numpy-mismatch")
@@ -218,16 +225,95 @@ def check_program(case) -> Outcome:
     return Outcome(nontrivial=nt, labels=tuple(labels), failures=tuple(fails))
 
 
+def check_program_processes(case) -> Outcome:
+    """Tier B on the real processes executor: the trace is written by the worker processes themselves (FileTraceStore)."""
+    import os
+    import shutil
+
+    import cubed
+    from zarr.storage import LocalStore
+
+    from cubed.runtime.create import create_executor
+    from vp import harness as H
+
+    prog = case["prog"]
+    labels = {"exec:processes", f"parallel:{case.get('parallel')}", f"batch:{case.get('batch_size')}", f"workers:{case.get('max_workers')}"}
+    vals = P.eval_numpy(prog)
+    wd = c01.Scratch.fresh("c07p")
+    fails = []
+    try:
+        fs = H.FileTraceStore(LocalStore(os.path.join(wd, "store")), os.path.join(wd, "log"), lat_seed=case.get("lat_seed", 0))
+        spec = cubed.Spec(intermediate_store=fs, allowed_mem=2_000_000_000, reserved_mem=0)
+        ctx = P.BuildCtx(lambda: LocalStore(c01.Scratch.fresh("in")))
+        with warnings.catch_warnings():
+            warnings.simplefilter("ignore")
+            try:
+                arrs = P.build_cubed(prog, spec, ctx)
+                outs = [arrs[i] for i in prog["outputs"]]
+                fp = cubed.plan(*outs, optimize_graph=case["optimize"])
+                fp.validate()
+            except Exception as e:
+                labels.add(f"declined:{type(e).__name__}")
+                return Outcome(labels=tuple(labels))
+            o = {"max_workers": case.get("max_workers", 2), "compute_arrays_in_parallel": bool(case.get("parallel"))}
+            if case.get("batch_size") is not None:
+                o["batch_size"] = case["batch_size"]
+            try:
+                res = cubed.compute(*outs, executor=create_executor("processes", o), optimize_graph=case["optimize"])
+            except Exception as e:
+                try:
+                    spec2 = c01.make_spec("single-threaded")
+                    arrs2 = P.build_cubed(prog, spec2)
+                    cubed.compute(*[arrs2[i] for i in prog["outputs"]], executor=H.make_executor("single-threaded"), optimize_graph=case["optimize"])
+                    fails.append(Failure(f"failed-only-under-this-schedule:{type(e).__name__}", f"processes parallel={case.get('parallel')} batch={case.get('batch_size')}: {e!r}"[:300]))
+                    return Outcome(nontrivial=True, labels=tuple(labels), failures=tuple(fails))
+                except Exception:
+                    labels.add(f"failed:{type(e).__name__}(C17)")
+                    return Outcome(labels=tuple(labels))
+        log = H.read_file_trace(os.path.join(wd, "log"))
+        pids = {r[1] for r in log}
+        labels.add(f"trace-processes={min(len(pids), 4)}")
+        miss, early = analyse_trace([(t, op, key, info, f"pid {pid}") for (t, pid, op, key, info) in log], fails)
+        for oid, got in zip(prog["outputs"], res):
+            if P.compare(np.asarray(got), vals[oid]) is not None:
+                labels.add("numpy-mismatch")
+                if miss or early:
+                    fails.append(Failure("wrong-values-after-premature-read", f"output {oid} differs from NumPy"))
+                break
+        nreads = len([1 for r in log if r[2] == "get" and H.is_chunk_key(r[3])])
+        labels.add(f"chunk-reads={min(nreads, 40) // 10 * 10}+")
+        return Outcome(nontrivial=_dependent_multi_task_ops(fp) and len(pids) >= 2, labels=tuple(labels), failures=tuple(fails))
+    finally:
+        shutil.rmtree(wd, ignore_errors=True)
+
+
+def _dependent_multi_task_ops(fp):
+    for n, d in fp.dag.nodes(data=True):
+        if d.get("type") == "op" and "primitive_op" in d and n != "create-arrays" and d["primitive_op"].num_tasks >= 2:
+            for a in fp.dag.predecessors(n):
+                for pn in fp.dag.predecessors(a):
+                    pd = fp.dag.nodes[pn]
+                    if "primitive_op" in pd and pn != "create-arrays" and pd["primitive_op"].num_tasks >= 2:
+                        return True
+    return False
+
+
 def check_case(case) -> Outcome:
     if case.get("kind") == "dag":
         return check_dag(case)
+    if case.get("executor") == "processes":
+        return check_program_processes(case)
     return check_program(case)
 
 
 def shards(tier):
     if tier == "quick":
-        return [{"kind": "dag", "name": f"dag{i}", "n": 1500} for i in range(5)] + [{"kind": "program", "name": f"prog{i}", "n": 60, "rotate": 47 + i * 79} for i in range(3)]
-    return [{"kind": "dag", "name": f"dag{i}", "n": 15000} for i in range(10)] + [{"kind": "program", "name": f"prog{i}", "n": 260, "rotate": 47 + i * 79} for i in range(6)]
+        return ([{"kind": "dag", "name": f"dag{i}", "n": 1500} for i in range(5)]
+                + [{"kind": "program", "name": f"prog{i}", "n": 60, "rotate": 47 + i * 79} for i in range(3)]
+                + [{"kind": "program", "name": f"proc{i}", "n": 9, "rotate": 13 + i * 31, "executors": ["processes"], "max_ops": 3} for i in range(2)])
+    return ([{"kind": "dag", "name": f"dag{i}", "n": 15000} for i in range(10)]
+            + [{"kind": "program", "name": f"prog{i}", "n": 260, "rotate": 47 + i * 79} for i in range(6)]
+            + [{"kind": "program", "name": f"proc{i}", "n": 90, "rotate": 13 + i * 31, "executors": ["processes"], "max_ops": 3} for i in range(4)])
 
 
 def run_shard(spec, seed, tier) -> Acc:
@@ -235,7 +321,11 @@ def run_shard(spec, seed, tier) -> Acc:
     if spec["kind"] == "__corpus__":
         return core.corpus_shard(sys.modules[__name__], acc)
     is_known, _ = core.known_matcher(ID)
-    strat = c07a.dag_cases() if spec["kind"] == "dag" else program_cases({"rotate": spec.get("rotate", 0), "allow_zero": False})
+    if spec["kind"] == "dag":
+        strat = c07a.dag_cases()
+    else:
+        kw = {"executors": tuple(spec["executors"])} if spec.get("executors") else {}
+        strat = program_cases({"rotate": spec.get("rotate", 0), "allow_zero": False}, max_ops=spec.get("max_ops", 4), **kw)
     core.hyp_run(strat, check_case, seed=seed, max_examples=spec["n"], acc=acc, budget_s=420 if tier == "quick" else 3000,
                  shrink=(tier == "thorough"), is_known=is_known)
     return acc
